@@ -30,7 +30,7 @@ PID = 'C08'
 FUNCTIONS = {p: ['Recipe.bake', 'Recipe.uses', 'Recipe.transfer', 'Recipe.create_container', 'Recipe.create_solution',
                  'Recipe.create_solution_from', 'Recipe.remove', 'Recipe.dilute', 'Recipe.fill_to', 'RecipeStep.__init__']
              for p in ('C08', 'C09', 'C15', 'C17', 'C07', 'C04')}
-SERVES = {'resolve': ['C08', 'C07'], 'same-op': ['C08', 'C07'], 'store': ['C08', 'C07'], 'names': ['C08'],
+SERVES = {'resolve': ['C08', 'C07', 'C03'], 'same-op': ['C08', 'C07', 'C03'], 'store': ['C08', 'C07', 'C03'], 'names': ['C08'],
           'snapshots': ['C09', 'C15'], 'objects-used': ['C09', 'C15'], 'used': ['C16', 'C08'],
           'substances-used': ['C09', 'C17'], 'trash': ['C09', 'C17', 'C15'], 'frame': ['C04'], 'no-effect-before-bake': ['C08'],
           'safe': ['C08']}
@@ -111,10 +111,13 @@ def _unary_results(I, args, kwargs):
 
 
 def _fill_results(I, args, kwargs):
-    """fill_to / dilute: by their contracts the named solvent is present in every (addressed) well of the result"""
+    """fill_to: by its contract the named solvent is a key of every (addressed) well of the result (possibly with amount
+    0).  dilute gives NO such guarantee: a target equal to the current concentration returns the container as it is, and
+    the solvent may be absent from it."""
     r = like(I, args[0])
-    solvent = args[1] if not (len(args) > 3) else args[3]     # fill_to(self, solvent, q) / dilute(self, solute, c, solvent, name)
-    if isinstance(solvent, SubV):
+    is_dilute = len(args) > 3
+    solvent = args[1] if not is_dilute else args[3]     # fill_to(self, solvent, q) / dilute(self, solute, c, solvent, name)
+    if isinstance(solvent, SubV) and not is_dilute:
         cells = [r] if r.cls.name == 'Container' else [c for row in r.fields['wells'].cells for c in row]
         for c in cells:
             I.assume(c.fields['contents'].mem[solvent.term])
